@@ -15,7 +15,7 @@ done | xargs -P $par -L 1 bash -c '
   id=$0; p=$1
   r=$(CUT=300 HEAD=4 /verif/tools/seedcheck_wt.sh $id $p quick 2>&1)
   line=$(echo "$r" | grep -E "^VIOLATION" | head -1)
-  if [ -z "$line" ]; then res="NOT-DETECTED"; else case "$line" in *no-failing-input-found*) res="BROKEN-TIE";; *) res="FAILING-INPUT";; esac; fi
+  if echo "$r" | grep -q "patch does not apply"; then res="PATCH-DOES-NOT-APPLY"; elif [ -z "$line" ]; then res="NOT-DETECTED"; else case "$line" in *no-failing-input-found*) res="BROKEN-TIE";; *) res="FAILING-INPUT";; esac; fi
   first=$(echo "$r" | grep -E "disagreement:|broken:" | head -1 | cut -c1-260 | tr "\n|" " /")
   echo "$id $p $res :: $first" >> '$out'
   echo "$id $p $res"
